@@ -183,6 +183,11 @@ def run_job(job, workdir, vacuity=False, trace=True):
             res['failed'].append(rec2)
         elif p['status'] not in ('SUCCESS',):
             unknown.append(p['property'] + '=' + p['status'])
+    uw = [f for f in res['failed'] if f['desc'].startswith('unwinding assertion')]
+    if uw and not vacuity:
+        res['failed'] = []
+        res['reason'] = 'unwinding bound too small for this code (%s): undecided, not a violation' % uw[0]['id']
+        return res
     if unknown and not res['failed'] and not vacuity:
         res['reason'] = 'obligations without a verdict: ' + ', '.join(unknown[:5])
         return res
